@@ -30,78 +30,130 @@ pub fn split_lines(src: &str) -> Vec<String> {
     v
 }
 
-/// Tokens of one line (trailing blanks removed, end-line character CR appended).
-pub fn lex_line(line: &str) -> Vec<Tok> {
-    #[derive(PartialEq)]
-    enum St {
-        N,
-        M,
-        S,
+#[derive(Clone, Copy, PartialEq, Eq, Debug)]
+enum St {
+    N,
+    M,
+    S,
+}
+
+/// Lazy scanner of one line (TeX 343-356 for the restricted alphabet): trailing blanks removed, the
+/// end-line character (category 5) appended. Tokens are produced one at a time because the category
+/// code of one character, `B`, can change while a line is being read: the caller passes its current
+/// code (11 letter, 12 other, 9 ignored) at every step. All other codes are plain TeX's.
+#[derive(Clone, Debug)]
+pub struct LineLex {
+    chars: Vec<char>,
+    pos: usize,
+    st: St,
+    done: bool,
+    /// set when a `B` was scanned under a code other than 11 (class counter only)
+    pub saw_recoded_b: bool,
+}
+
+impl LineLex {
+    pub fn new(line: &str) -> LineLex {
+        LineLex { chars: line.trim_end_matches(' ').chars().collect(), pos: 0, st: St::N, done: false, saw_recoded_b: false }
     }
-    let trimmed = line.trim_end_matches(' ');
-    let chars: Vec<char> = trimmed.chars().collect();
-    let mut out = vec![];
-    let mut st = St::N;
-    let mut i = 0;
-    loop {
-        if i >= chars.len() {
-            // the end-line character (category 5)
-            match st {
-                St::N => out.push(Tok::Cs("par".into())),
-                St::M => out.push(Tok::Sp),
-                St::S => {}
+
+    fn is_letter(c: char, cat_b: u8) -> bool {
+        c.is_ascii_alphabetic() && (c != 'B' || cat_b == 11)
+    }
+
+    /// The next token of the line; None when the line is exhausted.
+    pub fn next(&mut self, cat_b: u8) -> Option<Tok> {
+        loop {
+            if self.done {
+                return None;
             }
-            return out;
-        }
-        let c = chars[i];
-        i += 1;
-        match c {
-            ' ' => {
-                if st == St::M {
-                    out.push(Tok::Sp);
-                    st = St::S;
-                }
+            if self.pos >= self.chars.len() {
+                // the end-line character (category 5)
+                self.done = true;
+                return match self.st {
+                    St::N => Some(Tok::Cs("par".into())),
+                    St::M => Some(Tok::Sp),
+                    St::S => None,
+                };
             }
-            '%' => return out,
-            '{' => {
-                out.push(Tok::Open);
-                st = St::M;
-            }
-            '}' => {
-                out.push(Tok::Close);
-                st = St::M;
-            }
-            '\\' => {
-                if i >= chars.len() {
-                    // `\` directly before the end-line character: control symbol \^^M
-                    out.push(Tok::Cs("\r".into()));
-                    return out;
-                }
-                let d = chars[i];
-                if d.is_ascii_alphabetic() {
-                    let mut name = String::new();
-                    while i < chars.len() && chars[i].is_ascii_alphabetic() {
-                        name.push(chars[i]);
-                        i += 1;
+            let c = self.chars[self.pos];
+            self.pos += 1;
+            match c {
+                ' ' => {
+                    if self.st == St::M {
+                        self.st = St::S;
+                        return Some(Tok::Sp);
                     }
-                    out.push(Tok::Cs(name));
-                    st = St::S;
-                } else {
-                    i += 1;
-                    out.push(Tok::Cs(d.to_string()));
-                    st = if d == ' ' { St::S } else { St::M };
                 }
-            }
-            c if c.is_ascii_alphabetic() => {
-                out.push(Tok::L(c));
-                st = St::M;
-            }
-            c => {
-                out.push(Tok::Other(c));
-                st = St::M;
+                '%' => {
+                    self.done = true;
+                    return None;
+                }
+                '{' => {
+                    self.st = St::M;
+                    return Some(Tok::Open);
+                }
+                '}' => {
+                    self.st = St::M;
+                    return Some(Tok::Close);
+                }
+                '\\' => {
+                    if self.pos >= self.chars.len() {
+                        // `\` directly before the end-line character: control symbol \^^M
+                        self.done = true;
+                        return Some(Tok::Cs("\r".into()));
+                    }
+                    let d = self.chars[self.pos];
+                    if Self::is_letter(d, cat_b) {
+                        let mut name = String::new();
+                        while self.pos < self.chars.len() && Self::is_letter(self.chars[self.pos], cat_b) {
+                            name.push(self.chars[self.pos]);
+                            self.pos += 1;
+                        }
+                        self.st = St::S;
+                        return Some(Tok::Cs(name));
+                    }
+                    self.pos += 1;
+                    self.st = if d == ' ' { St::S } else { St::M };
+                    return Some(Tok::Cs(d.to_string()));
+                }
+                'B' if cat_b == 9 => {
+                    // ignored character: no token, no change of state
+                    self.saw_recoded_b = true;
+                }
+                c if Self::is_letter(c, cat_b) => {
+                    self.st = St::M;
+                    return Some(Tok::L(c));
+                }
+                c => {
+                    if c == 'B' {
+                        self.saw_recoded_b = true;
+                    }
+                    self.st = St::M;
+                    return Some(Tok::Other(c));
+                }
             }
         }
     }
+
+    /// Forget the rest of the line, its end-line character included.
+    pub fn kill(&mut self) {
+        self.done = true;
+    }
+
+    /// True when the line still holds a token.
+    pub fn has_more(&self, cat_b: u8) -> bool {
+        self.clone().next(cat_b).is_some()
+    }
+}
+
+/// Tokens of one line under plain TeX's category codes.
+pub fn lex_line(line: &str) -> Vec<Tok> {
+    let mut l = LineLex::new(line);
+    let mut out = vec![];
+    while let Some(t) = l.next(11) {
+        out.push(t);
+    }
+    out
 }
 
 // ------------------------------------------------------------------------------------
@@ -118,17 +170,44 @@ pub enum Piece {
     Else,
     Fi,
     Comment,
+    /// `\\input name ` (j < 8) or, with the extension spelled out, `\\input name.tex ` (j >= 8)
     Input(u8),
     EndInput,
     /// `\\ld name ` where `\\def\\ld#1 {<\\input #1 >}`: an \\input issued from a macro expansion, with a
     /// token of the expansion pending behind it
     Ld(u8),
+    /// the file name is ended by a token that is not a character; that token is read after the file:
+    /// `\\input name\\relax ` (j < 8) or `\\input name\\def\\v{d}` (j >= 8: the file still sees the old \\v)
+    InputRelax(u8),
+    /// `\\lr name ` where `\\def\\lr#1 {<\\input #1\\relax>}`
+    Lr(u8),
+    /// `\\ls name ` where `\\def\\ls#1 {<\\input\\sp #1 >}`, `\\def\\sp{ }`: a blank space in front of the
+    /// file name (TeX 526 skips it)
+    Ls(u8),
+    /// `\\le ` where `\\def\\le{<\\endinput>}`: \\endinput issued from a macro expansion, with a token of
+    /// the expansion pending behind it
+    Le,
+    /// `\\sa ` / `\\sb ` / `\\sc `: `\\def\\v{a}` (b, c), a local definition that groups undo
+    SetV(u8),
+    /// `\\v `: typesets the current value
+    UseV,
+    /// `\\co ` / `\\cl ` / `\\ci `: `\\catcode`\\B=12 ` (11, 9), a local assignment
+    Cat(u8),
 }
 
 #[derive(Clone, Debug, Serialize, Deserialize)]
 pub struct FileSpec {
     pub lines: Vec<Vec<Piece>>,
     pub final_newline: bool,
+    /// 0: nothing. Otherwise the file begins by finishing something its parent opened directly in
+    /// front of the \\input: 1 `\\fi `, 2 `\\else Q\\fi ` (parent: `\\iftrue `), 3 `\\v }\\v ` (parent: `{\\sc `)
+    #[serde(default)]
+    pub head: u8,
+    /// 0: nothing. Otherwise the file ends (own last line) inside something that the parent finishes
+    /// directly behind the file name: 1 `\\iftrue X` (parent: `\\else Z\\fi `), 2 `\\iffalse X\\else Y`
+    /// (parent: `\\fi `), 3 `{\\sb ` (parent: `\\v }\\v `)
+    #[serde(default)]
+    pub tail: u8,
 }
 
 #[derive(Clone, Debug, Serialize, Deserialize)]
@@ -141,9 +220,14 @@ fn file_name(i: usize) -> String {
     format!("f{}", (b'a' + (i % 26) as u8) as char)
 }
 
-fn render_file(spec: &FileSpec, idx: usize, nfiles: usize) -> String {
-    let mut s = String::new();
-    for (li, line) in spec.lines.iter().enumerate() {
+const PREAMBLE: &str = "\\def\\par{P}\\def\\ld#1 {<\\input #1 >}\\def\\lr#1 {<\\input #1\\relax>}\\def\\sp{ }\\def\\ls#1 {<\\input\\sp #1 >}\\def\\le{<\\endinput>}\\def\\v{o}\\def\\sa{\\def\\v{a}}\\def\\sb{\\def\\v{b}}\\def\\sc{\\def\\v{c}}\\def\\co{\\catcode`\\B=12 }\\def\\cl{\\catcode`\\B=11 }\\def\\ci{\\catcode`\\B=9 }%\n";
+
+fn render_file(c: &TreeCase, idx: usize) -> String {
+    let spec = &c.files[idx];
+    let nfiles = c.files.len();
+    let mut lines: Vec<String> = vec![];
+    for line in spec.lines.iter() {
+        let mut s = String::new();
         let mut had_endinput = false;
         for p in line {
             match p {
@@ -156,29 +240,79 @@ fn render_file(spec: &FileSpec, idx: usize, nfiles: usize) -> String {
                 Piece::Else => s.push_str("\\else "),
                 Piece::Fi => s.push_str("\\fi "),
                 Piece::Comment => s.push('%'),
-                Piece::Input(j) => {
+                Piece::Input(j) | Piece::Ld(j) | Piece::InputRelax(j) | Piece::Lr(j) | Piece::Ls(j) => {
                     // only files with a larger index; never after \endinput on the same line
                     // (TeX's global force_eof would close the nested file after its first line)
                     let remaining = nfiles.saturating_sub(idx + 1);
                     if remaining > 0 && !had_endinput {
-                        let target = idx + 1 + (*j as usize % remaining);
-                        s.push_str(&format!("\\input {} ", file_name(target)));
+                        let target = idx + 1 + ((*j % 8) as usize % remaining);
+                        let name = file_name(target);
+                        // what the target leaves open at its start / end is opened / finished here
+                        s.push_str(match c.files[target].head % 4 {
+                            1 | 2 => "\\iftrue ",
+                            3 => "{\\sc ",
+                            _ => "",
+                        });
+                        match p {
+                            Piece::Input(j) if *j >= 8 => s.push_str(&format!("\\input {}.tex ", name)),
+                            Piece::Input(_) => s.push_str(&format!("\\input {} ", name)),
+                            Piece::Ld(_) => s.push_str(&format!("\\ld {} ", name)),
+                            Piece::InputRelax(j) if *j >= 8 => s.push_str(&format!("\\input {}\\def\\v{{d}}", name)),
+                            Piece::InputRelax(_) => s.push_str(&format!("\\input {}\\relax ", name)),
+                            Piece::Lr(_) => s.push_str(&format!("\\lr {} ", name)),
+                            _ => s.push_str(&format!("\\ls {} ", name)),
+                        }
+                        s.push_str(match c.files[target].tail % 4 {
+                            1 => "\\else Z\\fi ",
+                            2 => "\\fi ",
+                            3 => "\\v }\\v ",
+                            _ => "",
+                        });
                     }
                 }
                 Piece::EndInput => {
                     s.push_str("\\endinput ");
                     had_endinput = true;
                 }
-                Piece::Ld(j) => {
-                    let remaining = nfiles.saturating_sub(idx + 1);
-                    if remaining > 0 && !had_endinput {
-                        let target = idx + 1 + (*j as usize % remaining);
-                        s.push_str(&format!("\\ld {} ", file_name(target)));
-                    }
+                Piece::Le => {
+                    s.push_str("\\le ");
+                    had_endinput = true;
                 }
+                Piece::SetV(k) => s.push_str(["\\sa ", "\\sb ", "\\sc "][(*k % 3) as usize]),
+                Piece::UseV => s.push_str("\\v "),
+                Piece::Cat(k) => s.push_str(["\\co ", "\\cl ", "\\ci "][(*k % 3) as usize]),
             }
         }
-        if li + 1 < spec.lines.len() || spec.final_newline {
+        lines.push(s);
+    }
+    if idx > 0 {
+        let head = match spec.head % 4 {
+            1 => "\\fi ",
+            2 => "\\else Q\\fi ",
+            3 => "\\v }\\v ",
+            _ => "",
+        };
+        if !head.is_empty() {
+            if lines.is_empty() {
+                lines.push(head.to_string());
+            } else {
+                lines[0] = format!("{}{}", head, lines[0]);
+            }
+        }
+        let tail = match spec.tail % 4 {
+            1 => "\\iftrue X",
+            2 => "\\iffalse X\\else Y",
+            3 => "{\\sb ",
+            _ => "",
+        };
+        if !tail.is_empty() {
+            lines.push(tail.to_string());
+        }
+    }
+    let mut s = String::new();
+    for (li, l) in lines.iter().enumerate() {
+        s.push_str(l);
+        if li + 1 < lines.len() || spec.final_newline {
             s.push('\n');
         }
     }
@@ -193,19 +327,28 @@ pub struct InputDev {
 
 #[derive(Debug)]
 pub enum ModelEnd {
-    Ok(String),
+    Ok(Vec<OutTok>),
     /// TeX itself reports an error on this input (outside the property)
     TexError(&'static str),
 }
 
+pub const TOO_MANY_LEVELS: &str = "too many input levels";
+
 struct Src {
+    /// serial number of this opening of a file (0 = the main source)
+    id: usize,
     lines: Vec<String>,
     next_line: usize,
-    toks: VecDeque<Tok>,
+    cur: Option<LineLex>,
+    /// tokens of macro expansions (and a token put back by the file name scanner) that are read
+    /// before the rest of the line
+    exp: VecDeque<Tok>,
     force_eof: bool,
-    in_line: bool,
+    /// groups + conditionals open when the file began
+    open_at_start: usize,
 }
 
+#[derive(Default)]
 pub struct InputModelStats {
     pub max_depth: usize,
     pub text_after_input: bool,
@@ -213,192 +356,414 @@ pub struct InputModelStats {
     pub endinputs: usize,
     pub inputs: usize,
     pub macro_inputs: usize,
+    pub empty_file_inputs: usize,
+    pub blank_line_file_inputs: usize,
+    pub no_final_newline_inputs: usize,
+    pub name_ended_by_relax: usize,
+    pub name_ended_by_def: usize,
+    pub explicit_extension: usize,
+    pub name_after_blank: usize,
+    pub macro_endinputs: usize,
+    pub macro_endinput_with_rest_of_line: usize,
+    pub files_ended_open: usize,
+    pub closed_in_other_file: usize,
+    pub else_in_other_file: usize,
+    pub restored_in_other_file: usize,
+    pub skipped_inputs: usize,
+    pub same_file_twice: bool,
+    pub recoded_b_in_other_file: usize,
+    /// what had been typeset when the model stopped with a TeX error
+    pub partial: Vec<OutTok>,
 }
 
-/// Interpret the file tree with TeX's semantics.
-pub fn run_input_model(files: &BTreeMap<String, String>, main: &str, dev: InputDev, max_sources: usize) -> (ModelEnd, InputModelStats) {
-    let mut stats = InputModelStats { max_depth: 0, text_after_input: false, text_after_endinput: false, endinputs: 0, inputs: 0, macro_inputs: 0 };
-    let mut stack: Vec<Src> = vec![Src { lines: split_lines(main), next_line: 0, toks: VecDeque::new(), force_eof: false, in_line: false }];
-    let mut out = String::new();
-    let mut group_depth: i64 = 0;
-    // open conditionals: true = currently in the branch before \else
-    let mut conds: Vec<bool> = vec![];
-    let mut steps = 0u64;
+struct Machine<'a> {
+    files: &'a BTreeMap<String, String>,
+    dev: InputDev,
+    max_nested: usize,
+    stack: Vec<Src>,
+    out: Vec<OutTok>,
+    /// open groups: saved \v, saved code of B, id of the source that opened it
+    groups: Vec<(char, u8, usize)>,
+    /// open conditionals: true = in the branch before \else; id of the source of the \if
+    conds: Vec<(bool, usize)>,
+    v: char,
+    cat_b: u8,
+    cat_b_set_in: usize,
+    next_id: usize,
+    opened: BTreeMap<String, usize>,
+    stats: InputModelStats,
+}
 
-    // Fetch the next token; `skipping` changes what the end of a file means.
-    // Returns None at the end of all input.
-    fn next_tok(stack: &mut Vec<Src>, skipping: bool) -> Result<Option<Tok>, &'static str> {
+impl<'a> Machine<'a> {
+    fn cur_id(&self) -> usize {
+        self.stack.last().map(|s| s.id).unwrap_or(0)
+    }
+
+    fn pop_file(&mut self) {
+        if let Some(s) = self.stack.pop() {
+            if self.groups.len() + self.conds.len() > s.open_at_start {
+                self.stats.files_ended_open += 1;
+            }
+        }
+    }
+
+    /// Fetch the next token; `skipping` changes what the end of a file means.
+    /// Returns None at the end of all input.
+    fn next_tok(&mut self, skipping: bool) -> Result<Option<Tok>, &'static str> {
         loop {
-            let Some(top) = stack.last_mut() else { return Ok(None) };
-            if let Some(t) = top.toks.pop_front() {
+            let cat_b = self.cat_b;
+            let set_in = self.cat_b_set_in;
+            let Some(top) = self.stack.last_mut() else { return Ok(None) };
+            if let Some(t) = top.exp.pop_front() {
                 return Ok(Some(t));
             }
-            // the current line is exhausted
-            if top.in_line && top.force_eof {
+            if let Some(l) = top.cur.as_mut() {
+                let t = l.next(cat_b);
+                if l.saw_recoded_b {
+                    l.saw_recoded_b = false;
+                    if set_in != top.id {
+                        self.stats.recoded_b_in_other_file += 1;
+                    }
+                }
+                if let Some(t) = t {
+                    return Ok(Some(t));
+                }
+                top.cur = None;
+            }
+            // at a line boundary: TeX 362 (force_eof, or input_ln fails)
+            if top.force_eof || top.next_line >= top.lines.len() {
                 if skipping {
                     return Err("file ended while skipping conditional text");
                 }
-                stack.pop();
+                self.pop_file();
                 continue;
             }
-            if top.next_line < top.lines.len() {
-                let l = top.lines[top.next_line].clone();
-                top.next_line += 1;
-                top.toks = lex_line(&l).into();
-                top.in_line = true;
-                continue;
-            }
-            if skipping {
-                return Err("file ended while skipping conditional text");
-            }
-            stack.pop();
+            top.cur = Some(LineLex::new(&top.lines[top.next_line]));
+            top.next_line += 1;
         }
     }
 
-    loop {
-        steps += 1;
-        if steps > 200_000 {
-            return (ModelEnd::TexError("model budget"), stats);
+    /// The next token without leaving the current line (file name, macro argument).
+    fn same_line_tok(&mut self) -> Option<Tok> {
+        let cat_b = self.cat_b;
+        let top = self.stack.last_mut()?;
+        if let Some(t) = top.exp.pop_front() {
+            return Some(t);
         }
-        let t = match next_tok(&mut stack, false) {
-            Ok(Some(t)) => t,
-            Ok(None) => return (ModelEnd::Ok(out), stats),
-            Err(e) => return (ModelEnd::TexError(e), stats),
-        };
-        match t {
-            Tok::L(c) | Tok::Other(c) => out.push(c),
-            Tok::Sp => out.push(' '),
-            Tok::Open => group_depth += 1,
-            Tok::Close => {
-                group_depth -= 1;
-                if group_depth < 0 {
-                    return (ModelEnd::TexError("extra }"), stats);
-                }
+        top.cur.as_mut()?.next(cat_b)
+    }
+
+    fn rest_of_line_nonempty(&self) -> bool {
+        match self.stack.last() {
+            Some(top) => top.cur.as_ref().map(|l| l.has_more(self.cat_b)).unwrap_or(false),
+            None => false,
+        }
+    }
+
+    fn push_front(&mut self, toks: Vec<Tok>) {
+        if let Some(top) = self.stack.last_mut() {
+            for t in toks.into_iter().rev() {
+                top.exp.push_front(t);
             }
-            Tok::Cs(name) => match name.as_str() {
-                "par" => out.push('P'),
-                "iftrue" => conds.push(true),
-                "iffalse" | "else" => {
-                    if name == "else" {
-                        match conds.pop() {
-                            Some(true) => {}
-                            _ => return (ModelEnd::TexError("extra \\else"), stats),
+        }
+    }
+
+    fn emit(&mut self, c: char, cat: u8) {
+        self.out.push(OutTok::Ch(c, cat));
+    }
+
+    fn run(&mut self) -> ModelEnd {
+        let mut steps = 0u64;
+        loop {
+            steps += 1;
+            if steps > 200_000 {
+                return ModelEnd::TexError("model budget");
+            }
+            let t = match self.next_tok(false) {
+                Ok(Some(t)) => t,
+                Ok(None) => return ModelEnd::Ok(std::mem::take(&mut self.out)),
+                Err(e) => return ModelEnd::TexError(e),
+            };
+            let here = self.cur_id();
+            match t {
+                Tok::L(c) => self.emit(c, 11),
+                Tok::Other(c) => self.emit(c, 12),
+                Tok::Sp => self.emit(' ', 10),
+                Tok::Open => self.groups.push((self.v, self.cat_b, here)),
+                Tok::Close => match self.groups.pop() {
+                    None => return ModelEnd::TexError("extra }"),
+                    Some((v0, c0, id)) => {
+                        if id != here {
+                            self.stats.closed_in_other_file += 1;
+                            if v0 != self.v || c0 != self.cat_b {
+                                self.stats.restored_in_other_file += 1;
+                            }
+                        }
+                        self.v = v0;
+                        if c0 != self.cat_b {
+                            self.cat_b = c0;
+                            self.cat_b_set_in = here;
                         }
                     }
-                    // skip to the matching \else (only for \iffalse) or \fi
-                    let mut level = 0;
-                    loop {
-                        let s = match next_tok(&mut stack, true) {
-                            Ok(Some(s)) => s,
-                            Ok(None) => return (ModelEnd::TexError("input ended while skipping"), stats),
-                            Err(e) => return (ModelEnd::TexError(e), stats),
+                },
+                Tok::Cs(name) => match name.as_str() {
+                    "par" => self.emit('P', 11),
+                    "relax" => {}
+                    "v" => self.emit(self.v, 11),
+                    "sa" => self.v = 'a',
+                    "sb" => self.v = 'b',
+                    "sc" => self.v = 'c',
+                    "co" | "cl" | "ci" => {
+                        self.cat_b = match name.as_str() {
+                            "co" => 12,
+                            "cl" => 11,
+                            _ => 9,
                         };
-                        if let Tok::Cs(n) = s {
-                            match n.as_str() {
-                                "iftrue" | "iffalse" => level += 1,
-                                "fi" => {
-                                    if level == 0 {
-                                        break;
-                                    }
-                                    level -= 1;
-                                }
-                                "else" => {
-                                    if level == 0 && name == "iffalse" {
-                                        conds.push(false);
-                                        break;
+                        self.cat_b_set_in = here;
+                    }
+                    "iftrue" => self.conds.push((true, here)),
+                    "iffalse" | "else" => {
+                        let mut origin = here;
+                        if name == "else" {
+                            match self.conds.pop() {
+                                Some((true, id)) => {
+                                    origin = id;
+                                    if id != here {
+                                        self.stats.else_in_other_file += 1;
                                     }
                                 }
-                                _ => {}
+                                _ => return ModelEnd::TexError("extra \\else"),
+                            }
+                        }
+                        // skip to the matching \else (only for \iffalse) or \fi
+                        let mut level = 0;
+                        loop {
+                            let s = match self.next_tok(true) {
+                                Ok(Some(s)) => s,
+                                Ok(None) => return ModelEnd::TexError("input ended while skipping"),
+                                Err(e) => return ModelEnd::TexError(e),
+                            };
+                            if let Tok::Cs(n) = s {
+                                match n.as_str() {
+                                    "iftrue" | "iffalse" => level += 1,
+                                    "fi" => {
+                                        if level == 0 {
+                                            break;
+                                        }
+                                        level -= 1;
+                                    }
+                                    "else" => {
+                                        if level == 0 && name == "iffalse" {
+                                            self.conds.push((false, origin));
+                                            break;
+                                        }
+                                    }
+                                    "input" | "ld" | "lr" | "ls" => self.stats.skipped_inputs += 1,
+                                    _ => {}
+                                }
                             }
                         }
                     }
-                }
-                "fi" => {
-                    if conds.pop().is_none() {
-                        return (ModelEnd::TexError("extra \\fi"), stats);
-                    }
-                }
-                "input" => {
-                    // file name: letters up to a space (consumed) or another token (left)
-                    let mut fname = String::new();
-                    loop {
-                        let top = stack.last_mut().unwrap();
-                        match top.toks.front() {
-                            Some(Tok::L(c)) => {
-                                fname.push(*c);
-                                top.toks.pop_front();
+                    "fi" => match self.conds.pop() {
+                        None => return ModelEnd::TexError("extra \\fi"),
+                        Some((_, id)) => {
+                            if id != here {
+                                self.stats.closed_in_other_file += 1;
                             }
-                            Some(Tok::Sp) => {
-                                top.toks.pop_front();
-                                break;
-                            }
-                            _ => break,
                         }
-                    }
-                    let Some(content) = files.get(&fname) else { return (ModelEnd::TexError("file not found"), stats) };
-                    if stack.last().map(|s| !s.toks.is_empty()).unwrap_or(false) {
-                        stats.text_after_input = true;
-                    }
-                    if stack.len() > max_sources {
-                        return (ModelEnd::TexError("too many input levels"), stats);
-                    }
-                    stats.inputs += 1;
-                    stack.push(Src { lines: split_lines(content), next_line: 0, toks: VecDeque::new(), force_eof: false, in_line: false });
-                    stats.max_depth = stats.max_depth.max(stack.len() - 1);
-                }
-                "endinput" => {
-                    stats.endinputs += 1;
-                    let top = stack.last_mut().unwrap();
-                    if !top.toks.is_empty() {
-                        stats.text_after_endinput = true;
-                    }
-                    top.force_eof = true;
-                    if dev.endinput_discards_rest_of_line {
-                        top.toks.clear();
-                    }
-                }
-                "def" => {
-                    // only the fixed preamble definitions: skip to the end of the body
-                    let mut depth = 0i32;
-                    loop {
-                        match next_tok(&mut stack, false) {
-                            Ok(Some(Tok::Open)) => depth += 1,
-                            Ok(Some(Tok::Close)) => {
-                                depth -= 1;
-                                if depth == 0 {
+                    },
+                    "input" => {
+                        // TeX 526: blank spaces in front of the name are skipped (expanding macros on the
+                        // way: \sp is a blank space); then characters up to a blank space, which is
+                        // consumed, or up to a token that is not a character, which is read again later
+                        let mut fname = String::new();
+                        loop {
+                            match self.same_line_tok() {
+                                None => return ModelEnd::TexError("file name runs over the end of the line"),
+                                Some(Tok::L(c)) | Some(Tok::Other(c)) => fname.push(c),
+                                Some(Tok::Open) => fname.push('{'),
+                                Some(Tok::Close) => fname.push('}'),
+                                Some(Tok::Sp) => {
+                                    if !fname.is_empty() {
+                                        break;
+                                    }
+                                }
+                                Some(Tok::Cs(n)) if n == "sp" => {
+                                    if !fname.is_empty() {
+                                        break;
+                                    }
+                                    self.stats.name_after_blank += 1;
+                                }
+                                Some(t) => {
+                                    if t == Tok::Cs("relax".into()) {
+                                        self.stats.name_ended_by_relax += 1;
+                                    }
+                                    if t == Tok::Cs("def".into()) {
+                                        self.stats.name_ended_by_def += 1;
+                                    }
+                                    self.push_front(vec![t]);
                                     break;
                                 }
                             }
-                            Ok(Some(_)) => {}
-                            _ => return (ModelEnd::TexError("runaway definition"), stats),
+                        }
+                        // the extension .tex is supplied when the name has none (TeX 537)
+                        if let Some(stem) = fname.strip_suffix(".tex") {
+                            fname = stem.to_string();
+                            self.stats.explicit_extension += 1;
+                        }
+                        let Some(content) = self.files.get(&fname) else { return ModelEnd::TexError("file not found") };
+                        let top = self.stack.last().unwrap();
+                        if !top.exp.is_empty() || self.rest_of_line_nonempty() {
+                            self.stats.text_after_input = true;
+                        }
+                        if self.stack.len() > self.max_nested {
+                            return ModelEnd::TexError(TOO_MANY_LEVELS);
+                        }
+                        self.stats.inputs += 1;
+                        let mut lines = split_lines(content);
+                        if content.is_empty() {
+                            self.stats.empty_file_inputs += 1;
+                        } else if lines.iter().all(|l| l.trim_end_matches(' ').is_empty()) {
+                            self.stats.blank_line_file_inputs += 1;
+                        }
+                        if !content.is_empty() && !content.ends_with('\n') {
+                            self.stats.no_final_newline_inputs += 1;
+                        }
+                        if lines.is_empty() {
+                            // TeX 538: "If the file is empty, it is considered to contain a single blank line."
+                            lines.push(String::new());
+                        }
+                        let n = self.opened.entry(fname.clone()).or_insert(0);
+                        *n += 1;
+                        if *n >= 2 {
+                            self.stats.same_file_twice = true;
+                        }
+                        let id = self.next_id;
+                        self.next_id += 1;
+                        let open_at_start = self.groups.len() + self.conds.len();
+                        self.stack.push(Src { id, lines, next_line: 0, cur: None, exp: VecDeque::new(), force_eof: false, open_at_start });
+                        self.stats.max_depth = self.stats.max_depth.max(self.stack.len() - 1);
+                    }
+                    "endinput" => {
+                        self.stats.endinputs += 1;
+                        let rest = self.rest_of_line_nonempty();
+                        let dev = self.dev;
+                        let top = self.stack.last_mut().unwrap();
+                        if rest || !top.exp.is_empty() {
+                            self.stats.text_after_endinput = true;
+                        }
+                        if rest && !top.exp.is_empty() {
+                            self.stats.macro_endinput_with_rest_of_line += 1;
+                        }
+                        top.force_eof = true;
+                        if dev.endinput_discards_rest_of_line {
+                            // the line is dropped where the scanner stands; tokens of macro expansions
+                            // that are already pending are still read
+                            if let Some(l) = top.cur.as_mut() {
+                                l.kill();
+                            }
                         }
                     }
-                }
-                "ld" => {
-                    // \def\ld#1 {<\input #1 >}: #1 is delimited by a space
-                    let mut arg: Vec<Tok> = vec![];
-                    loop {
-                        let top = stack.last_mut().unwrap();
-                        match top.toks.pop_front() {
-                            Some(Tok::Sp) => break,
-                            Some(t @ Tok::L(_)) => arg.push(t),
-                            _ => return (ModelEnd::TexError("argument of \\ld runs over the line"), stats),
+                    "def" => {
+                        // the definitions of the preamble are built into this interpreter; the only one that
+                        // the files repeat is \def\v{<letter>} (a local definition)
+                        let target = match self.next_tok(false) {
+                            Ok(Some(t)) => t,
+                            _ => return ModelEnd::TexError("runaway definition"),
+                        };
+                        let mut depth = 0i32;
+                        let mut params = 0usize;
+                        let mut body: Vec<Tok> = vec![];
+                        loop {
+                            match self.next_tok(false) {
+                                Ok(Some(Tok::Open)) => {
+                                    depth += 1;
+                                    if depth > 1 {
+                                        body.push(Tok::Open);
+                                    }
+                                }
+                                Ok(Some(Tok::Close)) => {
+                                    depth -= 1;
+                                    if depth == 0 {
+                                        break;
+                                    }
+                                    body.push(Tok::Close);
+                                }
+                                Ok(Some(t)) => {
+                                    if depth == 0 {
+                                        params += 1;
+                                    } else {
+                                        body.push(t);
+                                    }
+                                }
+                                _ => return ModelEnd::TexError("runaway definition"),
+                            }
+                        }
+                        if target == Tok::Cs("v".into()) && params == 0 {
+                            if let [Tok::L(c)] = body[..] {
+                                self.v = c;
+                            }
                         }
                     }
-                    let top = stack.last_mut().unwrap();
-                    let mut exp: Vec<Tok> = vec![Tok::Other('<'), Tok::Cs("input".into())];
-                    exp.extend(arg);
-                    exp.push(Tok::Sp);
-                    exp.push(Tok::Other('>'));
-                    for t in exp.into_iter().rev() {
-                        top.toks.push_front(t);
+                    "ld" | "lr" | "ls" => {
+                        // \def\ld#1 {<\input #1 >}: #1 is delimited by a space
+                        let mut arg: Vec<Tok> = vec![];
+                        loop {
+                            match self.same_line_tok() {
+                                Some(Tok::Sp) => break,
+                                Some(t @ Tok::L(_)) => arg.push(t),
+                                _ => return ModelEnd::TexError("argument of \\ld runs over the line"),
+                            }
+                        }
+                        let mut exp: Vec<Tok> = vec![Tok::Other('<'), Tok::Cs("input".into())];
+                        if name == "ls" {
+                            exp.push(Tok::Cs("sp".into()));
+                        }
+                        exp.extend(arg);
+                        if name == "lr" {
+                            exp.push(Tok::Cs("relax".into()));
+                        } else {
+                            exp.push(Tok::Sp);
+                        }
+                        exp.push(Tok::Other('>'));
+                        self.push_front(exp);
+                        self.stats.macro_inputs += 1;
                     }
-                    stats.macro_inputs += 1;
-                }
-                _ => return (ModelEnd::TexError("undefined control sequence"), stats),
-            },
+                    "le" => {
+                        self.push_front(vec![Tok::Other('<'), Tok::Cs("endinput".into()), Tok::Other('>')]);
+                        self.stats.macro_endinputs += 1;
+                    }
+                    _ => return ModelEnd::TexError("undefined control sequence"),
+                },
+            }
         }
     }
+}
+
+/// Interpret the file tree with TeX's semantics. `max_nested` = number of files that may be open below
+/// the main source.
+pub fn run_input_model(files: &BTreeMap<String, String>, main: &str, dev: InputDev, max_nested: usize) -> (ModelEnd, InputModelStats) {
+    let mut m = Machine {
+        files,
+        dev,
+        max_nested,
+        stack: vec![Src { id: 0, lines: split_lines(main), next_line: 0, cur: None, exp: VecDeque::new(), force_eof: false, open_at_start: 0 }],
+        out: vec![],
+        groups: vec![],
+        conds: vec![],
+        v: 'o',
+        cat_b: 11,
+        cat_b_set_in: 0,
+        next_id: 1,
+        opened: BTreeMap::new(),
+        stats: InputModelStats::default(),
+    };
+    let end = m.run();
+    let mut stats = m.stats;
+    if let ModelEnd::TexError(_) = end {
+        stats.partial = m.out;
+    }
+    (end, stats)
 }
 
 fn piece_strategy() -> impl Strategy<Value = Piece> {
@@ -412,14 +777,27 @@ fn piece_strategy() -> impl Strategy<Value = Piece> {
         1 => Just(Piece::Else),
         2 => Just(Piece::Fi),
         1 => Just(Piece::Comment),
-        5 => (0u8..8).prop_map(Piece::Input),
-        3 => (0u8..8).prop_map(Piece::Ld),
+        3 => (0u8..8).prop_map(Piece::Input),
+        1 => (8u8..16).prop_map(Piece::Input),
+        2 => (0u8..8).prop_map(Piece::Ld),
         1 => Just(Piece::EndInput),
+        // the letter whose category code the programs change
+        2 => Just(Piece::Tag(1)),
+        1 => (0u8..8).prop_map(Piece::InputRelax),
+        1 => (8u8..16).prop_map(Piece::InputRelax),
+        1 => (0u8..8).prop_map(Piece::Lr),
+        1 => (0u8..8).prop_map(Piece::Ls),
+        1 => Just(Piece::Le),
+        2 => (0u8..3).prop_map(Piece::SetV),
+        2 => Just(Piece::UseV),
+        2 => (0u8..3).prop_map(Piece::Cat),
     ]
 }
 
 fn file_strategy() -> impl Strategy<Value = FileSpec> {
-    (proptest::collection::vec(proptest::collection::vec(piece_strategy(), 0..7), 0..6), proptest::bool::weighted(0.7)).prop_map(|(lines, final_newline)| FileSpec { lines, final_newline })
+    let open_end = || prop_oneof![7 => Just(0u8), 1 => Just(1u8), 1 => Just(2u8), 1 => Just(3u8)];
+    (proptest::collection::vec(proptest::collection::vec(piece_strategy(), 0..7), 0..6), proptest::bool::weighted(0.7), open_end(), open_end())
+        .prop_map(|(lines, final_newline, head, tail)| FileSpec { lines, final_newline, head, tail })
 }
 
 fn tree_strategy() -> impl Strategy<Value = TreeCase> {
@@ -492,7 +870,34 @@ fn well_form(c: &TreeCase) -> TreeCase {
     out
 }
 
-const MAX_SOURCES: usize = 100;
+/// Files that may be open below the main source in the randomly generated trees (never reached: the
+/// trees have at most 8 files).
+const MAX_NESTED: usize = 100;
+
+/// Judge a run against the files-as-lines model; the listed deviation D25 is excused only when the
+/// deviating model reproduces the run exactly.
+fn judge_input(ctx: &Ctx, files: &BTreeMap<String, String>, main: &str, r: &texvm::RunResult, expected: &[OutTok], note: &str, nontrivial: bool) -> Verdict {
+    if r.error.is_none() && r.out == expected {
+        return Verdict::pass(nontrivial);
+    }
+    if ctx.known("flag:endinput_discards_rest_of_line") {
+        match run_input_model(files, main, InputDev { endinput_discards_rest_of_line: true }, MAX_NESTED) {
+            (ModelEnd::Ok(e2), _) => {
+                if r.error.is_none() && r.out == e2 {
+                    return Verdict::Known("flag:endinput_discards_rest_of_line".into());
+                }
+            }
+            (ModelEnd::TexError(_), _) => {
+                // with the rest of the line gone the program is erroneous (e.g. a \fi whose
+                // \iftrue was discarded): the implementation must then report an error
+                if r.error.is_some() {
+                    return Verdict::Known("flag:endinput_discards_rest_of_line".into());
+                }
+            }
+        }
+    }
+    Verdict::Fail(format!("output differs from the files-as-lines model\n{}\nexpected: {}\ngot:      {}\nerror:    {:?}", note, texvm::render(expected), texvm::render(&r.out), r.error))
+}
 
 fn tree_oracle(ctx: &Ctx, c: &TreeCase, case: &mut Case) -> Verdict {
     let c = well_form(c);
@@ -500,68 +905,79 @@ fn tree_oracle(ctx: &Ctx, c: &TreeCase, case: &mut Case) -> Verdict {
     let mut files: BTreeMap<String, String> = BTreeMap::new();
     let mut vm_files = vec![];
     for i in 1..n {
-        let text = render_file(&c.files[i], i, n);
+        let text = render_file(&c, i);
         files.insert(file_name(i), text.clone());
         vm_files.push((format!("{}.tex", file_name(i)), text));
     }
-    let main = format!("\\def\\par{{P}}\\def\\ld#1 {{<\\input #1 >}}%\n{}", render_file(&c.files[0], 0, n));
-    let (model, stats) = run_input_model(&files, &main, InputDev::default(), MAX_SOURCES);
-    let mut note = format!("main: {:?}", main);
+    let body = render_file(&c, 0);
+    let main = format!("{}{}", PREAMBLE, body);
+    let (model, stats) = run_input_model(&files, &main, InputDev::default(), MAX_NESTED);
+    let mut note = format!("main (after the preamble of definitions): {:?}", body);
     for (k, v) in &files {
         note.push_str(&format!(" | {}: {:?}", k, v));
     }
     case.note = Some(note.clone());
+    // the program is run even when TeX would report an error: a crash still counts
     let opts = VmOptions { files: vm_files, ..Default::default() };
     let r = texvm::run_program(&opts, &main);
+    let expected = match model {
+        ModelEnd::TexError(_) => {
+            // class counters below are recorded for judged cases only
+            case.class("tex error");
+            return Verdict::Skip("TeX reports an error on this input");
+        }
+        ModelEnd::Ok(expected) => expected,
+    };
     case.class_if(stats.max_depth >= 2, "depth>=2");
     case.class_if(stats.max_depth >= 4, "depth>=4");
     case.class_if(stats.text_after_input, "text after \\input on its line");
     case.class_if(stats.text_after_endinput, "text after \\endinput on its line");
     case.class_if(stats.endinputs > 0, "endinput executed");
     case.class_if(stats.macro_inputs > 0, "\\input from a macro expansion with pending tokens");
-    let nontrivial = stats.max_depth >= 2 || stats.text_after_input || stats.text_after_endinput || stats.macro_inputs > 0;
-    match model {
-        ModelEnd::TexError(e) => {
-            case.class("tex error");
-            let _ = e;
-            Verdict::Skip("TeX reports an error on this input")
-        }
-        ModelEnd::Ok(expected) => {
-            let got = texvm::plain(&r.out);
-            if r.error.is_none() && got == expected {
-                return Verdict::pass(nontrivial);
-            }
-            if ctx.known("flag:endinput_discards_rest_of_line") {
-                match run_input_model(&files, &main, InputDev { endinput_discards_rest_of_line: true }, MAX_SOURCES) {
-                    (ModelEnd::Ok(e2), _) => {
-                        if r.error.is_none() && got == e2 {
-                            return Verdict::Known("flag:endinput_discards_rest_of_line".into());
-                        }
-                    }
-                    (ModelEnd::TexError(_), _) => {
-                        // with the rest of the line gone the program is erroneous (e.g. a \fi whose
-                        // \iftrue was discarded): the implementation must then report an error
-                        if r.error.is_some() {
-                            return Verdict::Known("flag:endinput_discards_rest_of_line".into());
-                        }
-                    }
-                }
-            }
-            Verdict::Fail(format!("output differs from the files-as-lines model\n{}\nexpected: {:?}\ngot:      {:?}\nerror:    {:?}", note, expected, got, r.error))
-        }
-    }
+    case.class_if(stats.empty_file_inputs > 0, "empty (0-byte) file input");
+    case.class_if(stats.blank_line_file_inputs > 0, "file of blank lines only input");
+    case.class_if(stats.no_final_newline_inputs > 0, "file without final newline input");
+    case.class_if(stats.name_ended_by_relax > 0, "file name ended by \\relax");
+    case.class_if(stats.name_ended_by_def > 0, "file name ended by \\def (executed after the file)");
+    case.class_if(stats.explicit_extension > 0, "file name with explicit extension");
+    case.class_if(stats.name_after_blank > 0, "blank space in front of the file name");
+    case.class_if(stats.macro_endinputs > 0, "\\endinput from a macro expansion with pending tokens");
+    case.class_if(stats.macro_endinput_with_rest_of_line > 0, "\\endinput from a macro, expansion tokens and rest of line pending");
+    case.class_if(stats.files_ended_open > 0, "file ended inside a group or conditional");
+    case.class_if(stats.closed_in_other_file > 0, "group or conditional closed in another file than it was opened in");
+    case.class_if(stats.else_in_other_file > 0, "\\else in another file than its \\if");
+    case.class_if(stats.restored_in_other_file > 0, "group end in another file restores \\v or \\catcode");
+    case.class_if(stats.skipped_inputs > 0, "\\input inside skipped conditional text");
+    case.class_if(stats.same_file_twice, "same file input twice");
+    case.class_if(stats.recoded_b_in_other_file > 0, "character read under a category code set in another file");
+    let nontrivial = stats.max_depth >= 2
+        || stats.text_after_input
+        || stats.text_after_endinput
+        || stats.macro_inputs > 0
+        || stats.empty_file_inputs > 0
+        || stats.name_ended_by_relax > 0
+        || stats.name_ended_by_def > 0
+        || stats.macro_endinputs > 0
+        || stats.closed_in_other_file > 0
+        || stats.recoded_b_in_other_file > 0;
+    judge_input(ctx, &files, &main, &r, &expected, &note, nontrivial)
 }
 
 #[derive(Clone, Debug, Serialize, Deserialize)]
 pub struct DepthCase {
     depth: usize,
     trailing: bool,
+    /// 0: a chain of `depth` nested files. 1: `reps` \input's of one file, one after the other.
+    /// 2: the same, the file stopping itself with \endinput. 3: a chain of `depth` files whose
+    /// last-but-one link inputs the last one `reps` times in sequence; the main source walks the chain twice.
+    #[serde(default)]
+    kind: u8,
+    #[serde(default)]
+    reps: usize,
 }
 
-fn depth_oracle(c: &DepthCase, case: &mut Case) -> Verdict {
-    // file i inputs file i+1 in the middle of a line
+fn depth_oracle(ctx: &Ctx, c: &DepthCase, case: &mut Case) -> Verdict {
     let mut files: BTreeMap<String, String> = BTreeMap::new();
-    let mut vm_files = vec![];
     fn num_name(i: usize) -> String {
         // letters only (file names are read as letter tokens)
         let mut s = String::new();
@@ -576,42 +992,86 @@ fn depth_oracle(c: &DepthCase, case: &mut Case) -> Verdict {
         s
     }
     let name = |i: usize| format!("d{}", num_name(i));
-    for i in 1..=c.depth {
-        let text = if i < c.depth {
-            if c.trailing {
-                format!("A\\input {} B\n", name(i + 1))
-            } else {
-                format!("A\\input {}\nB\n", name(i + 1))
+    // `A\input x B` in one line, or the name ended by the end of the line
+    let link = |target: &str, trailing: bool| if trailing { format!("A\\input {} B\n", target) } else { format!("A\\input {}\nB\n", target) };
+    let main;
+    match c.kind {
+        0 => {
+            // file i inputs file i+1 in the middle of a line
+            for i in 1..=c.depth {
+                let text = if i < c.depth { link(&name(i + 1), c.trailing) } else { "Z\n".to_string() };
+                files.insert(name(i), text);
             }
-        } else {
-            "Z\n".to_string()
-        };
-        files.insert(name(i), text.clone());
-        vm_files.push((format!("{}.tex", name(i)), text));
+            main = format!("\\def\\par{{P}}%\nM\\input {} N%\n", name(1));
+            case.note = Some(format!("chain of {} nested files", c.depth));
+        }
+        1 | 2 => {
+            let text = match (c.kind, c.trailing) {
+                (1, _) => "Z\n",
+                (_, true) => "Z\\endinput Y\nQ\n",
+                (_, false) => "Z\\endinput\nQ\n",
+            };
+            files.insert("fa".into(), text.to_string());
+            main = format!("\\def\\par{{P}}%\n{}", link("fa", c.trailing).repeat(c.reps));
+            case.note = Some(format!("{} \\input's of {:?} in sequence", c.reps, text));
+        }
+        _ => {
+            for i in 1..=c.depth {
+                let text = if i + 1 < c.depth {
+                    link(&name(i + 1), c.trailing)
+                } else if i < c.depth {
+                    link(&name(i + 1), c.trailing).repeat(c.reps)
+                } else {
+                    "Z\n".to_string()
+                };
+                files.insert(name(i), text);
+            }
+            main = format!("\\def\\par{{P}}%\nM\\input {} N%\nM\\input {} N%\n", name(1), name(1));
+            case.note = Some(format!("chain of {} nested files walked twice, the innermost file input {} times in sequence", c.depth, c.reps));
+        }
     }
-    let main = format!("\\def\\par{{P}}%\nM\\input {} N%\n", name(1));
-    let (model, _) = run_input_model(&files, &main, InputDev::default(), MAX_SOURCES);
-    case.note = Some(format!("chain of {} nested files", c.depth));
-    let opts = VmOptions { files: vm_files, ..Default::default() };
+    let vm_files: Vec<(String, String)> = files.iter().map(|(k, v)| (format!("{}.tex", k), v.clone())).collect();
+    let opts = VmOptions { files: vm_files, budget: 200_000, ..Default::default() };
     let r = texvm::run_program(&opts, &main);
-    match model {
-        ModelEnd::Ok(expected) => {
-            let got = texvm::plain(&r.out);
-            if r.error.is_none() && got == expected {
-                Verdict::pass(true)
-            } else {
-                Verdict::Fail(format!("nesting depth {}: expected {:?}, got {:?}, error {:?}", c.depth, expected, got, r.error))
+    // The documented limit is "too many input levels (100)". Counting the main source as a level (as
+    // TeX's in_open does) 99 files may be open below it, not counting it 100: both readings are accepted,
+    // but whichever \input is refused, everything in front of it must have been delivered exactly.
+    let mut first_expected = None;
+    for (max_nested, class) in [(99usize, "limit: the 100th nested \\input is refused"), (100usize, "limit: the 100th nested \\input is accepted, the 101st refused")] {
+        let (model, stats) = run_input_model(&files, &main, InputDev::default(), max_nested);
+        match model {
+            ModelEnd::Ok(expected) => {
+                // below the limit under this reading
+                let v = judge_input(ctx, &files, &main, &r, &expected, case.note.as_deref().unwrap_or(""), true);
+                if !matches!(v, Verdict::Fail(_)) {
+                    case.class_if(c.depth >= 100, class);
+                    case.class_if(stats.inputs > 100, "more than 100 \\input's executed in one run");
+                    return v;
+                }
+                if first_expected.is_none() {
+                    first_expected = Some(format!("complete output {}", texvm::render(&expected)));
+                }
             }
-        }
-        ModelEnd::TexError(_) => {
-            // beyond the documented limit: a located error, not a crash
-            if r.error.is_some() {
-                Verdict::pass(true)
-            } else {
-                Verdict::Fail(format!("nesting depth {} exceeds the documented limit of 100 but no error was reported", c.depth))
+            ModelEnd::TexError(e) if e == TOO_MANY_LEVELS => {
+                let refused = r.error.as_deref().map(|t| t.contains("too many input levels")).unwrap_or(false);
+                if refused && r.out == stats.partial {
+                    case.class(class);
+                    return Verdict::pass(true);
+                }
+                if first_expected.is_none() {
+                    first_expected = Some(format!("the error \"too many input levels\" after the output {}", texvm::render(&stats.partial)));
+                }
             }
+            ModelEnd::TexError(e) => return Verdict::Fail(format!("depth probe is not a valid program for the model: {}", e)),
         }
     }
+    Verdict::Fail(format!(
+        "{}: expected {} (or the same with the limit one level later), got {} with error {:?}",
+        case.note.clone().unwrap_or_default(),
+        first_expected.unwrap_or_default(),
+        texvm::render(&r.out),
+        r.error
+    ))
 }
 
 // ------------------------------------------------------------------------------------
@@ -619,7 +1079,11 @@ fn depth_oracle(c: &DepthCase, case: &mut Case) -> Verdict {
 
 #[derive(Clone, Debug, Serialize, Deserialize)]
 pub enum ROp {
-    OpenIn(u8, u8), // stream, file index (may not exist)
+    /// stream selector, file: `f % 6` = index (beyond the list: a file that does not exist), `f >= 6` = no `=`
+    OpenIn(u8, u8),
+    /// `n % 4` stream selector; `n / 4 % 2 == 1`: the target is the active character `~` instead of `\\x`;
+    /// `n / 8 % 2 == 1`: the \\read stands in a group of its own (the definition is local);
+    /// `n / 16 % 2 == 1`: stream number outside 0..15 (-1 or 16: the terminal)
     Read(u8),
     IfEof(u8),
     CloseIn(u8),
@@ -631,6 +1095,9 @@ pub struct ReadCase {
     pub final_newline: Vec<bool>,
     pub terminal: Vec<Vec<RPiece>>,
     pub ops: Vec<ROp>,
+    /// the four stream numbers (of 0..15) the selectors 0..3 stand for; empty = 0, 1, 2, 3
+    #[serde(default)]
+    pub stream_map: Vec<u8>,
 }
 
 #[derive(Clone, Debug, Serialize, Deserialize)]
@@ -641,6 +1108,10 @@ pub enum RPiece {
     Close,
     Comment,
     Cs(u8),
+    /// a character of another category: `#` (6), `~` (13), `$` (3), `&` (4), `_` (8)
+    Special(u8),
+    /// `{X{Y}`: a group that closes on this line inside a group that stays open
+    Nest(u8, u8),
 }
 
 fn render_rline(l: &[RPiece]) -> String {
@@ -653,6 +1124,14 @@ fn render_rline(l: &[RPiece]) -> String {
             RPiece::Close => s.push('}'),
             RPiece::Comment => s.push('%'),
             RPiece::Cs(k) => s.push_str(["\\a ", "\\bc ", "\\!", "\\ "][(*k % 4) as usize]),
+            RPiece::Special(k) => s.push(['#', '~', '$', '&', '_'][(*k % 5) as usize]),
+            RPiece::Nest(a, b) => {
+                s.push('{');
+                s.push((b'A' + (a % 15)) as char);
+                s.push('{');
+                s.push((b'A' + (b % 15)) as char);
+                s.push('}');
+            }
         }
     }
     s
@@ -673,6 +1152,11 @@ enum Stream {
 fn tok_out(t: &Tok) -> OutTok {
     match t {
         Tok::L(c) => OutTok::Ch(*c, 11),
+        Tok::Other('#') => OutTok::Ch('#', 6),
+        Tok::Other('$') => OutTok::Ch('$', 3),
+        Tok::Other('&') => OutTok::Ch('&', 4),
+        Tok::Other('_') => OutTok::Ch('_', 8),
+        Tok::Other('~') => OutTok::Active('~'),
         Tok::Other(c) => OutTok::Ch(*c, 12),
         Tok::Sp => OutTok::Ch(' ', 10),
         Tok::Open => OutTok::Ch('{', 1),
@@ -690,6 +1174,16 @@ pub struct ReadBuilt {
     pub read_at_eof: bool,
     pub terminal_reads: usize,
     pub file_reads: usize,
+    /// a \\read went on to a further line after an inner group had closed with the outer one still open
+    pub nested_group_spans_lines: usize,
+    pub hash_in_body: usize,
+    pub active_target: usize,
+    pub local_reads: usize,
+    pub out_of_range_reads: usize,
+    pub high_streams: usize,
+    pub two_digit_file_reads: usize,
+    pub openin_without_equals: usize,
+    pub stream_15_file_reads: usize,
 }
 
 pub fn build_read(c: &ReadCase, dev: ReadDev) -> (ReadBuilt, Vec<(String, String)>, Vec<String>) {
@@ -708,16 +1202,44 @@ pub fn build_read(c: &ReadCase, dev: ReadDev) -> (ReadBuilt, Vec<(String, String
     }
     let terminal: Vec<String> = c.terminal.iter().map(|l| render_rline(l)).collect();
     let mut term_pos = 0usize;
-    let mut streams: Vec<Stream> = (0..16).map(|_| Stream::Closed).collect();
-    let mut b = ReadBuilt { program: String::new(), expected: vec![], tex_error: None, multi_line_read: false, read_at_eof: false, terminal_reads: 0, file_reads: 0 };
+    let mut streams: Vec<Stream> = (0..17).map(|_| Stream::Closed).collect();
+    let mut b = ReadBuilt {
+        program: "\\def\\x{o}\\def~{t}".to_string(),
+        expected: vec![],
+        tex_error: None,
+        multi_line_read: false,
+        read_at_eof: false,
+        terminal_reads: 0,
+        file_reads: 0,
+        nested_group_spans_lines: 0,
+        hash_in_body: 0,
+        active_target: 0,
+        local_reads: 0,
+        out_of_range_reads: 0,
+        high_streams: 0,
+        two_digit_file_reads: 0,
+        openin_without_equals: 0,
+        stream_15_file_reads: 0,
+    };
     let semi = OutTok::Ch(';', 12);
+    let smap: Vec<usize> = if c.stream_map.len() == 4 { c.stream_map.iter().map(|x| (*x % 16) as usize).collect() } else { vec![0, 1, 2, 3] };
+    // current meanings of the two targets
+    let mut bodies: [Vec<Tok>; 2] = [vec![Tok::L('o')], vec![Tok::L('t')]];
     'ops: for op in &c.ops {
         match op {
             ROp::OpenIn(n, f) => {
-                let n = (*n % 4) as usize;
+                let n = smap[(*n % 4) as usize];
                 // index beyond the file list = a file that does not exist
-                let fi = *f as usize % (c.files.len() + 1);
-                b.program.push_str(&format!("\\openin{}={} ", n, file_name(fi)));
+                let fi = (*f as usize % 6) % (c.files.len() + 1);
+                if *f >= 6 {
+                    b.openin_without_equals += 1;
+                    b.program.push_str(&format!("\\openin{} {} ", n, file_name(fi)));
+                } else {
+                    b.program.push_str(&format!("\\openin{}={} ", n, file_name(fi)));
+                }
+                if n >= 4 {
+                    b.high_streams += 1;
+                }
                 streams[n] = if fi < c.files.len() {
                     let mut lines = split_lines(&contents[fi]);
                     if dev.ifeof_true_after_last_real_line && lines.is_empty() {
@@ -731,24 +1253,47 @@ pub fn build_read(c: &ReadCase, dev: ReadDev) -> (ReadBuilt, Vec<(String, String
                 };
             }
             ROp::CloseIn(n) => {
-                let n = (*n % 4) as usize;
+                let n = smap[(*n % 4) as usize];
                 b.program.push_str(&format!("\\closein{} ", n));
                 streams[n] = Stream::Closed;
             }
             ROp::IfEof(n) => {
-                let n = (*n % 4) as usize;
+                let n = smap[(*n % 4) as usize];
                 b.program.push_str(&format!("\\ifeof{} T\\else F\\fi;", n));
                 let closed = matches!(streams[n], Stream::Closed);
                 b.expected.push(OutTok::Ch(if closed { 'T' } else { 'F' }, 11));
                 b.expected.push(semi.clone());
             }
-            ROp::Read(n) => {
-                let n = (*n % 4) as usize;
-                b.program.push_str(&format!("\\read{} to\\x \\expandafter\\vpcapture\\x\\vpstop;", n));
+            ROp::Read(code) => {
+                let target = (*code / 4 % 2) as usize;
+                let local = *code / 8 % 2 == 1;
+                let out_of_range = *code / 16 % 2 == 1;
+                // slot 16 is never opened: a stream number outside 0..15 means the terminal (TeX 482-484)
+                let (n, number) = if out_of_range {
+                    (16usize, if *code % 2 == 0 { "-1".to_string() } else { "16".to_string() })
+                } else {
+                    let n = smap[(*code % 4) as usize];
+                    (n, n.to_string())
+                };
+                let tname = ["\\x ", "~"][target];
+                b.program.push_str(&format!("{}\\read{} to{}{}\\expandafter\\vpcapture{}\\vpstop;", if local { "{" } else { "" }, number, tname, if local { "}" } else { "" }, tname));
+                b.active_target += target;
+                b.local_reads += local as usize;
+                b.out_of_range_reads += out_of_range as usize;
                 let mut body: Vec<Tok> = vec![];
                 let mut depth = 0i64;
                 let mut nlines = 0;
+                let mut inner_closed = false;
                 let from_file = matches!(streams[n], Stream::Open { .. });
+                if from_file && n >= 10 {
+                    b.two_digit_file_reads += 1;
+                }
+                if from_file && n == 15 {
+                    b.stream_15_file_reads += 1;
+                }
+                if n >= 4 && n < 16 {
+                    b.high_streams += 1;
+                }
                 if from_file {
                     b.file_reads += 1;
                 } else {
@@ -812,7 +1357,11 @@ pub fn build_read(c: &ReadCase, dev: ReadDev) -> (ReadBuilt, Vec<(String, String
                                     break;
                                 }
                                 depth -= 1;
+                                if depth >= 1 {
+                                    inner_closed = true;
+                                }
                             }
+                            Tok::Other('#') => b.hash_in_body += 1,
                             _ => {}
                         }
                         body.push(t);
@@ -820,11 +1369,18 @@ pub fn build_read(c: &ReadCase, dev: ReadDev) -> (ReadBuilt, Vec<(String, String
                     if aborted || depth == 0 {
                         break;
                     }
+                    if inner_closed {
+                        b.nested_group_spans_lines += 1;
+                    }
                 }
                 if nlines >= 2 {
                     b.multi_line_read = true;
                 }
-                b.expected.extend(body.iter().map(tok_out));
+                if !local {
+                    bodies[target] = body;
+                }
+                // a definition made inside a group is gone after the group: the old meaning shows
+                b.expected.extend(bodies[target].iter().map(tok_out));
                 b.expected.push(semi.clone());
             }
         }
@@ -841,6 +1397,9 @@ fn rpiece_strategy() -> impl Strategy<Value = RPiece> {
         2 => Just(RPiece::Close),
         1 => Just(RPiece::Comment),
         2 => (0u8..4).prop_map(RPiece::Cs),
+        2 => (0u8..5).prop_map(RPiece::Special),
+        1 => Just(RPiece::Special(0)),
+        1 => (0u8..15, 0u8..15).prop_map(|(a, b)| RPiece::Nest(a, b)),
     ]
 }
 
@@ -850,9 +1409,11 @@ fn rline_strategy() -> impl Strategy<Value = Vec<RPiece>> {
 
 fn read_case_strategy() -> impl Strategy<Value = ReadCase> {
     let stream = || prop_oneof![5 => 0u8..2, 1 => 2u8..4];
+    // stream selector + 4 * (target ~) + 8 * (read in a group) + 16 * (stream number out of range)
+    let read_code = || (stream(), proptest::bool::weighted(0.3), proptest::bool::weighted(0.15), proptest::bool::weighted(0.06)).prop_map(|(n, t, l, o)| n + 4 * t as u8 + 8 * l as u8 + 16 * o as u8);
     let op = prop_oneof![
-        2 => (stream(), 0u8..6).prop_map(|(n, f)| ROp::OpenIn(n, f)),
-        8 => stream().prop_map(ROp::Read),
+        2 => (stream(), 0u8..6, proptest::bool::weighted(0.3)).prop_map(|(n, f, noeq)| ROp::OpenIn(n, f + 6 * noeq as u8)),
+        8 => read_code().prop_map(ROp::Read),
         5 => stream().prop_map(ROp::IfEof),
         1 => stream().prop_map(ROp::CloseIn),
     ];
@@ -862,12 +1423,16 @@ fn read_case_strategy() -> impl Strategy<Value = ReadCase> {
         proptest::collection::vec(rline_strategy(), 0..9),
         proptest::collection::vec(op, 1..14),
         (0u8..6, 0u8..6),
+        (0u8..16, 0u8..15, 0u8..14, 0u8..13),
     )
-        .prop_map(|(files, final_newline, terminal, mut ops, (f0, f1))| {
+        .prop_map(|(files, final_newline, terminal, mut ops, (f0, f1), (a, b, c, d))| {
             // streams 0 and 1 start open (mostly on existing files) so that reads reach files
             ops.insert(0, ROp::OpenIn(0, f0));
             ops.insert(1, ROp::OpenIn(1, f1));
-            ReadCase { files, final_newline, terminal, ops }
+            // four distinct stream numbers out of the sixteen
+            let mut pool: Vec<u8> = (0..16).collect();
+            let stream_map = vec![pool.remove(a as usize), pool.remove(b as usize), pool.remove(c as usize), pool.remove(d as usize)];
+            ReadCase { files, final_newline, terminal, ops, stream_map }
         })
 }
 
@@ -885,7 +1450,7 @@ fn well_form_read(c: &ReadCase) -> ReadCase {
             let mut v = vec![];
             for p in l.iter() {
                 match p {
-                    RPiece::Open => {
+                    RPiece::Open | RPiece::Nest(_, _) => {
                         depth += 1;
                         v.push(p.clone());
                     }
@@ -933,16 +1498,27 @@ fn read_oracle(ctx: &Ctx, c: &ReadCase, case: &mut Case) -> Verdict {
     case.note = Some(note.clone());
     // a real terminal line ends with a newline (std::io::Stdin::read_line keeps it)
     let opts = VmOptions { files: vm_files.clone(), terminal: terminal.iter().map(|l| format!("{}\n", l)).collect(), ..Default::default() };
+    // the program is run even when TeX would report an error: a crash still counts
     let r = texvm::run_program(&opts, &b.program);
+    if b.tex_error.is_some() {
+        // class counters below are recorded for judged cases only
+        case.class("tex error");
+        return Verdict::Skip("TeX reports an error on this input");
+    }
     case.class_if(b.multi_line_read, "read spans lines");
     case.class_if(b.read_at_eof, "read at end of file");
     case.class_if(b.terminal_reads > 0, "terminal read");
     case.class_if(b.file_reads >= 2, ">=2 file reads");
+    case.class_if(b.nested_group_spans_lines > 0, "read goes on to another line after an inner group closed inside an open outer group");
+    case.class_if(b.hash_in_body > 0, "# in the body of a read");
+    case.class_if(b.active_target > 0, "read to an active character");
+    case.class_if(b.local_reads > 0, "read inside a group (local definition)");
+    case.class_if(b.out_of_range_reads > 0, "read with a stream number outside 0..15");
+    case.class_if(b.high_streams > 0, "stream number 4..15 used");
+    case.class_if(b.two_digit_file_reads > 0, "file read on a two-digit stream number");
+    case.class_if(b.openin_without_equals > 0, "\\openin without =");
+    case.class_if(b.stream_15_file_reads > 0, "file read on stream 15");
     let nontrivial = b.multi_line_read || b.read_at_eof || b.file_reads >= 2;
-    if b.tex_error.is_some() {
-        case.class("tex error");
-        return Verdict::Skip("TeX reports an error on this input");
-    }
     if r.error.is_none() && r.out == b.expected {
         return Verdict::pass(nontrivial);
     }
@@ -963,13 +1539,22 @@ fn read_oracle(ctx: &Ctx, c: &ReadCase, case: &mut Case) -> Verdict {
 }
 
 pub fn run(ctx: &Ctx) {
-    ctx.rule("input trees: up to 6 in-memory files (0-5 lines each, with/without final newline, empty files, lines ending inside groups/conditionals) over tags, blanks, braces, \\iftrue/\\iffalse/\\else/\\fi, comments, blank lines (\\par defined as a tag), \\input and \\endinput at any position of a line; output compared with a small TeX interpreter (line scanner + source stack + conditional skipping) that treats files as lines standing in place; plus nesting-depth probes. read: scripts of \\openin/\\read/\\ifeof/\\closein over 4 streams, files with balanced and unbalanced line groups, scripted terminal; the macro body defined by each \\read (captured unexpanded) and every \\ifeof must equal TeX's read_toks model. non-trivial = nesting depth>=2 or text after \\input/\\endinput on its line; for read: a read spanning lines, a read at end of file, or >=2 reads of one file; distinct by rendered case");
+    ctx.rule("input trees: 1-8 in-memory files (0-5 lines each, with/without final newline, empty files, files ending inside groups/conditionals that the parent finishes and files finishing what the parent opened) over tags, blanks, braces, \\iftrue/\\iffalse/\\else/\\fi, comments, blank lines (\\par defined as a tag), \\input (name ended by a blank, the line end or \\relax; issued directly or by a macro with tokens pending behind it, also with a blank in front of the name) and \\endinput (literal or issued by a macro with tokens pending) at any position of a line, a scoped definition (\\v) and scoped \\catcode changes of the letter B (letter/other/ignored); the typeset tokens (character + category code) are compared with a small TeX interpreter (lazy line scanner + source stack + conditional skipping + group save stack) that treats files as lines standing in place; plus nesting-depth probes (chains up to 150, exactly 100, >100 \\input's in sequence with and without \\endinput, sequential \\input's at depth 99). read: scripts of \\openin/\\read/\\ifeof/\\closein over 4 of the 16 streams (any four), files with balanced and unbalanced line groups (nested groups that close while the outer group spans lines), characters of categories 3,4,6,8,13 in the lines, targets \\x and the active character ~, reads inside a group, stream numbers outside 0..15, scripted terminal; the macro body defined by each \\read (captured unexpanded) and every \\ifeof must equal TeX's read_toks model. non-trivial = nesting depth>=2, text after \\input/\\endinput on its line, an empty file, a name ended by \\relax, a macro-issued \\input/\\endinput, a group/conditional closed in another file, or a character read under a category code set in another file; for read: a read spanning lines, a read at end of file, or >=2 reads of one file; distinct by rendered case");
     ctx.assume("\\input after \\endinput on the same line is not generated (TeX's global force_eof closes the nested file after its first line)");
     ctx.assume("inputs on which TeX itself reports an error (extra }, \\else, \\fi; a file ending while conditional text is skipped; unbalanced \\read at end of file; exhausted terminal) are skipped and counted");
+    ctx.assume("a file name is followed on its own line by a blank, the line end or \\relax (a name running into the next line, other expandable tokens inside a name are not generated)");
+    ctx.assume("the documented limit \"too many input levels (100)\" is read as: at least 99 files can be open below the main source and at most 100; the 100th nested \\input may be refused (main source counted as a level, as TeX's in_open does) or accepted, the 101st must be refused, and everything in front of the refused \\input must have been delivered exactly");
     let n = ctx.tier.pick(250_000u64, 3_000_000u64);
     run_generated(ctx, "input_tree", n, tree_strategy, |c: &TreeCase, case| tree_oracle(ctx, c, case));
-    let depths: Vec<DepthCase> = [1usize, 2, 5, 50, 90, 98, 99, 101, 102, 150].iter().flat_map(|d| [DepthCase { depth: *d, trailing: true }, DepthCase { depth: *d, trailing: false }]).collect();
-    run_list(ctx, "input_depth", depths, |c: &DepthCase, case| depth_oracle(c, case));
+    let mut depths: Vec<DepthCase> = [1usize, 2, 5, 50, 90, 98, 99, 100, 101, 102, 150].iter().flat_map(|d| [DepthCase { depth: *d, trailing: true, kind: 0, reps: 0 }, DepthCase { depth: *d, trailing: false, kind: 0, reps: 0 }]).collect();
+    for trailing in [true, false] {
+        // more than 100 \input's one after the other: levels must be given back when a file ends
+        depths.push(DepthCase { depth: 1, trailing, kind: 1, reps: 150 });
+        depths.push(DepthCase { depth: 1, trailing, kind: 2, reps: 150 });
+        depths.push(DepthCase { depth: 99, trailing, kind: 3, reps: 5 });
+        depths.push(DepthCase { depth: 50, trailing, kind: 3, reps: 120 });
+    }
+    run_list(ctx, "input_depth", depths, |c: &DepthCase, case| depth_oracle(ctx, c, case));
     let n = ctx.tier.pick(250_000u64, 3_000_000u64);
     run_generated(ctx, "read_streams", n, read_case_strategy, |c: &ReadCase, case| read_oracle(ctx, c, case));
 }
